@@ -367,3 +367,53 @@ UNIT['deviations'] = {
       '(object/types.rs:382: the field is commented out): the shading a page paints with is lost already on load, and so on '
       'import (findings/pruning_drops_named_resources.md)',
 }
+
+# ---------------------------------------------------------------------------------------------------------------------
+# PageBuilder::clone_page
+CLONE_PAGE_LEMMAS = (
+    'if page.contents is Some { lemma_ops_mono(content_ops(page.contents->Some_0), r_.ops@, m_ops, cloner.memo(), r_.ops@.len() as int); '
+    'lemma_pruned_mono(*old_resources, r_.resources, m_ops, cloner.memo()); lemma_resources_kept_refl(r_.resources); '
+    'lemma_ops_resources_step(content_ops(page.contents->Some_0), *old_resources, r_.resources, r_.resources, m_ops, cloner.memo(), content_ops(page.contents->Some_0).len() as int); } '
+    'else { lemma_pruned_mono(*old_resources, r_.resources, m_ops, cloner.memo()); } '
+    'page.metadata.lemma_mono(&r_.metadata, m_metadata, cloner.memo()); page.lgi.lemma_mono(&r_.lgi, m_lgi, cloner.memo()); '
+    'page.vp.lemma_mono(&r_.vp, m_vp, cloner.memo()); lemma_dict_mono(page.other, r_.other, m_other, cloner.memo());')
+WORLD_E = {
+  'struct Rectangle': {'kind': 'decl', 'file': T, 'header': r'^pub struct Rectangle$', 'attrs': ['#[derive(Clone, Copy)]']},
+  'struct Page': {'kind': 'decl', 'file': T, 'header': r'^pub struct Page$'},
+  'struct PageBuilder': {'kind': 'decl', 'file': B, 'header': r'^pub struct PageBuilder$'},
+  'MaybeRef::data': {'kind': 'fn', 'file': M, 'container': r'^impl<T> MaybeRef<T>$', 'name': 'data', 'props': PR,
+      'ensures': [('data_is_data', '*r == maybe_data(*self)')]},
+  'PageBuilder::clone_page': {'kind': 'fn', 'file': B, 'container': r'^impl PageBuilder$', 'name': 'clone_page', 'props': PR,
+      'attrs': ['#[verifier::loop_isolation(false)]'],
+      'requires': [WF_A],
+      'ensures': [('cloner_wf', 'wf(*final(cloner))'), ('memo_grows', 'grows(*old(cloner), *final(cloner))'),
+                  ('page_cloned', 'r matches Ok(b) ==> page_cloned(*page, b, final(cloner).memo())'),
+                  ('no_media_box_is_error', 'eff_media_box(*page) is None ==> r is Err')],
+      'rewrites': [CLONER_SIG,
+          # R6/R7/R8: the Option/iterator chain -> the hoisted read of the operations, then an index loop over them calling the
+          # closure body (verbatim, by back-reference) front to back; first Err ends it (`collect::<Result<Vec<_>,_>>`)
+          {'rule': 'R6', 'regex': r'let ops = page\.contents\.as_ref\(\)\s*\.map\(\|content\| content\.operations\(cloner\)\)\.transpose\(\)\?\s*'
+                                  r'\.map\(\|ops\| \{\s*ops\.into_iter\(\)\.map\(\|op\| -> Result<Op, PdfError> \{\s*(?P<body>.*?)\s*\}\)\.collect\(\)\s*\}\)\s*'
+                                  r'\.transpose\(\)\?\s*\.unwrap_or_default\(\);',
+           'replace': r'let ops: Vec<Op> = match hoist_contents_ops(&page.contents, cloner)? { None => Vec::new(), Some(ops) => { '
+                      r'let mut out_: Vec<Op> = Vec::new(); let mut i_: usize = 0; while i_ < ops.len() { let op = &ops[i_]; '
+                      r'let ghost m0_ = cloner.memo(); let ghost r0_ = resources; let ghost o0_ = out_@; let c_ = \g<body>?; out_.push(c_); i_ = i_ + 1; '
+                      r'proof { lemma_ops_mono(ops@, o0_, m0_, cloner.memo(), (i_ - 1) as int); '
+                      r'lemma_ops_resources_step(ops@, *old_resources, r0_, resources, m0_, cloner.memo(), (i_ - 1) as int); } } out_ } };'},
+          # R1: ghost snapshots between the deep-cloned fields, lemmas at the end (as the derived impls)
+          {'rule': 'R1', 'regex': r'Ok\(PageBuilder \{(.*)\}\)\s*\}\s*\Z',
+           'replace': r'let ghost m_ops = cloner.memo(); let ghost mut m_metadata: Memo = cloner.memo(); let ghost mut m_lgi: Memo = cloner.memo(); '
+                      r'let ghost mut m_vp: Memo = cloner.memo(); let ghost mut m_other: Memo = cloner.memo(); '
+                      r'let r_ = PageBuilder {\1}; proof { ' + CLONE_PAGE_LEMMAS + r' } Ok(r_) }'},
+          {'rule': 'R1', 'regex': r'(\w+): (page\.(\w+)\.deep_clone\(cloner\)\?),', 'replace': r'\1: { let v_ = \2; proof { m_\1 = cloner.memo(); } v_ },', 'count': '*'},
+      ],
+      'loops': {1: {'invariant': [
+          'i_ <= ops@.len()', 'out_@.len() == i_', 'wf(*cloner)', 'grows(*old(cloner), *cloner)',
+          'page.contents matches Some(c_) && ops@ == content_ops(c_)',
+          'eff_resources(*page) matches Some(mr_) && *old_resources == *maybe_data(mr_)',
+          ('resources_are_pruned_source', 'pruned_of(*old_resources, resources, cloner.memo())'),
+          ('operations_in_order', 'ops_clone(ops@, out_@, cloner.memo(), i_ as int)'),
+          ('named_resources_kept', 'ops_resources_kept(ops@, *old_resources, resources, cloner.memo(), i_ as int)'),
+      ], 'decreases': 'ops@.len() - i_'}}},
+}
+UNIT['items'].update(WORLD_E)
